@@ -12,7 +12,7 @@ import os
 import random
 import re
 
-from harness import common, tlc, trace
+from harness import common, tlaps, tlc, trace
 from harness import reftest_lib as rl
 from harness import reftest_session as rs
 from checks import c19
@@ -231,6 +231,9 @@ def run(chk):
     chk.add_tlc(r2)
     if r2.violated:
         chk.machinery_error('MC_RefTest_steps violates %s' % r2.violated)
+    # the same properties for ARBITRARY constants (any number of kinds, files, contents, types): TLAPS
+    tlaps.record(chk, 'RefTest_proofs', ['Spec => NormalModeFrame', 'Spec => OnlyOnRequest', 'Spec => ExactlySelected',
+                                          'Spec => SetRegenerationFrame', 'Spec => []RegenWritesActual', 'Spec => []RegenThenPass'])
     rows = sorted(r2.rows, key=lambda r: json.dumps(r, sort_keys=True))
     if len(rows) < 5000:
         chk.machinery_error('vacuity: only %d step rows' % len(rows))
